@@ -58,7 +58,7 @@ def cases(tier, seed, shard, nshards):
                     yield {"keys": list(ks), "mw": ["custom", list(ORDERS[oi]), cs]}
     if tier == "thorough":
         r = rng_for(seed, shard, "c17")
-        for _ in range(200000 // nshards):
+        for _ in range(2000000 // nshards):
             ks = [r.choice(KEYS + ["Author", "author", "AUTHOR", "é", "É"]) for _ in range(r.randint(6, 8))]
             which = r.random()
             if which < .2:
